@@ -8,9 +8,11 @@
 package c18
 
 import (
+	"fmt"
 	"os"
 	"regexp"
 	"strings"
+	"time"
 
 	"verifharness/fw"
 	"verifharness/rng"
@@ -73,23 +75,52 @@ func grid() []fw.Case {
 	return out
 }
 
+var settledPoints = []string{"configured", "running", "standby", "destroyed"}
+var inflightPoints = []string{"launching", "configuring", "starting", "stopping", "teardown"}
+
+// randomScenario: 1-3 disturbances; before each, 0-2 new environments. Inside the core, commands to tasks go
+// through ONE queue and environment creations are serialised, so an environment with an operation parked at a
+// gate blocks every later creation in the same life until the core's own timeouts (25 s deployment, 90/120 s
+// commands) — beyond the harness ceiling. Hence: an in-flight point is always the LAST environment created in
+// a life, and after a reconnection (which leaves such an operation stuck) the script creates nothing more.
 func randomScenario(r *rng.R) fw.Case {
 	s := &scenario{k: r.Range(1, 3), kv0: r.P(1, 8)}
 	nd := r.Range(1, 3)
 	envs := 0
+	blocked := false // an operation is parked in this life
+	dropped := false // the stream was dropped in this life
+	var alive []int  // indices of settled, destroyable environments of this life
 	for d := 0; d < nd; d++ {
 		ne := r.Range(0, 2)
-		if envs+ne > 3 {
-			ne = 3 - envs
-		}
-		for i := 0; i < ne; i++ {
-			s.acts = append(s.acts, action{"env", rng.Pick(r, points)})
+		for i := 0; i < ne && envs < 4 && !blocked; i++ {
+			if r.P(1, 2) {
+				s.acts = append(s.acts, action{"env", rng.Pick(r, inflightPoints)})
+				blocked = true
+			} else {
+				p := rng.Pick(r, settledPoints)
+				s.acts = append(s.acts, action{"env", p})
+				if p != "destroyed" {
+					alive = append(alive, envs)
+				}
+			}
 			envs++
 		}
-		if envs > 0 && r.P(1, 6) {
-			s.acts = append(s.acts, action{"destroy", string(rune('0' + r.N(envs)))})
+		if len(alive) > 0 && !blocked && r.P(1, 5) {
+			k := r.N(len(alive))
+			s.acts = append(s.acts, action{"destroy", string(rune('0' + alive[k]))})
+			alive = append(alive[:k], alive[k+1:]...)
 		}
-		s.acts = append(s.acts, rng.Pick(r, disturbances))
+		dist := rng.Pick(r, disturbances)
+		if blocked && dropped && dist.kind == "term" {
+			// SIGTERM would wait for the stuck operation's timeout inside the core: crash instead
+			dist = action{"kill", ""}
+		}
+		s.acts = append(s.acts, dist)
+		if dist.kind != "drop" {
+			blocked, dropped, alive = false, false, nil
+		} else {
+			dropped = true
+		}
 	}
 	return cs(s, "random")
 }
@@ -119,7 +150,12 @@ func runImpl(input string) (string, error) {
 	if err != nil {
 		return "(badinput)", nil
 	}
-	return runScenario(sc, os.Getenv("C18_VERBOSE") != "")
+	t0 := time.Now()
+	obs, err := runScenario(sc, os.Getenv("C18_VERBOSE") != "")
+	if os.Getenv("C18_TIMING") != "" {
+		fmt.Fprintf(os.Stderr, "C18 %6.1fs %s err=%v\n", time.Since(t0).Seconds(), input, err != nil)
+	}
+	return obs, err
 }
 
 var reRealRecon = regexp.MustCompile(`\(upd t\d+ \w+ recon 1\)`)
@@ -169,9 +205,9 @@ func init() {
 			"disturbances with environments created by the new life in between; 3 scripts with mesos_fid pre-seeded. RANDOM: 12 (thorough 320) scripts of 1-3 " +
 			"disturbances, 0-3 environments at random points, 1-3 tasks, optional destroy. Every disturbance is bracketed by barrier-ordered quiet points " +
 			"(GetTasks, GetEnvironments, mesos_fid, master's live rows). non-trivial = the master answered a reconciliation about at least one real task; distinct by input text",
-		Shrink:  shrink,
-		Search:  search,
-		Workers: 8,
+		Shrink:     shrink,
+		Search:     search,
+		Workers:    8,
 		Exhaustive: func(string) bool { return false },
 		TrustedBase: []string{
 			"harness/sim (whole-core simulator: Mesos master/agents/executors, Consul KV, workflow repository; core child through core.RunForVerif) + sim.InjectUpdate (added for the barrier)",
